@@ -7,7 +7,7 @@ LEVEL = 'proof'
 EXPLANATION = ('Re-run executes exactly the out-of-date tasks: postconditions of decide_new_state on a DONE task (kept only if every dependency is DONE with end <= start and no hard dependency FAILED/SKIPPED, environment untouched; an up-to-date task is kept), last_end_time (None iff no dependency or one without end clock, else the maximum; loop invariant), worker publishes the clocks of this run before the status, merge_done_tasks merges exactly the DONE entries; build_graphs puts every collected task into both graphs with exactly its hard / soft edges (nested loop invariants over abstract node and edge sets) and RunCommand.execute reads back the environment of every node before scheduling. Two-run histories on all DAGs <= 3 tasks at the scheduler level, and `valjean run` 2-3 times on small jobs at the command level, run natively as the labelled bounded stand-ins.')
 ASSUMPTIONS = su.ASSUMPTIONS
 TRUSTED = su.TRUSTED
-UNITS = 'decide decide_waiting last_end_time enqueue worker master schedule scheduler_init backend_init og independence env_locks merge_done dg_add_node dg_add_dependency dg_remove_node dg_flatten dg_histories env_conformance native_rerun native_sweep build_graphs run_command native_command'.split()
+UNITS = 'decide decide_waiting last_end_time enqueue worker master schedule scheduler_init backend_init og independence env_locks merge_done dg_add_node dg_add_dependency dg_remove_node dg_flatten dg_histories env_conformance native_rerun native_sweep build_graphs run_command read_env native_command'.split()
 
 
 def units(tier):
@@ -30,6 +30,9 @@ def run_unit(unit, tier, seed, known):
         from pyvc import prop
         res = verify_function(C14.exec_world(), C14.c_execute(), setup=C14.exec_setup, extra_check=C14.exec_check)
         return {'functions': [prop.discharge(res, tier, ID, lambda m, r: {'note': 'see model text'}, _replay_command)]}
+    if unit == 'read_env':
+        from . import env_units
+        return env_units.unit_read_env(tier, ID, _replay_command)
     if unit == 'native_command':
         from . import rerun_cli_native as rc
         return {'bounded': [rc.sweep(tier, seed)]}
